@@ -227,6 +227,20 @@ def job(chk, idxs):
                         chk.undecide('%s [%s]: %s, but this re-layout does not change the flagged tokens' % (d, label, dep))
                 elif rr[0][0] != rr[1][0]:
                     chk.violation('%s:relayout:panic-in-one-layout' % d, '%s: %r vs %r' % (d, rr[0][:2], rr[1][:2]), {'source': text, 'relayout': new_text})
+            # a re-layout of the SAME byte length (every second line feed a blank), analysed right after the original in one process
+            if i % 3 == 0:
+                tw = c15.twin(text)
+                if tw != text:
+                    p_a, p_b = chk.native.file(text), chk.native.file(tw)
+                    rr = chk.native.run([['analyze', oracle.CATEGORY[d], d, p_a], ['detect', d, p_b], ['analyze', oracle.CATEGORY[d], d, p_b]])
+                    chk.states += 1
+                    if rr[1][0] == 'OK' and rr[2][0] == 'OK':
+                        raw = tw.encode()
+                        want = sorted({1 + raw[:int(x.split(':')[0])].count(b'\n') for x in rr[1][1].split(',') if x})
+                        got = [int(x) for x in rr[2][1].split(',') if x]
+                        if got != want:
+                            chk.violation('%s:relayout:lines-do-not-follow-tokens' % d, '%s: an equal-length re-layout analysed right after the original: flagged tokens start on lines %r, reported lines %r (`%s`)' % (d, want, got, label),
+                                          {'job': 'analyze sequence', 'detector': d, 'source': text, 'other_source': tw, 'expected': want, 'observed': got})
         if i % 25 == 0:
             chk.sample({'file': label, 'relayout (first 300 chars)': layouts[-1][1][:300] if layouts else None})
 
